@@ -141,7 +141,8 @@ Section K.
   (* --- facts about the answers read back *)
   Lemma sol_cube_good cs sol : consistent sol -> all_sat sol (encode n true (clauses_of cs)) = true ->
     cube_good g (from_partial weighted sol).
-  Proof using Hw Hq.
+  Proof.
+    clear solver_sound solver_complete Hcw Hnn HrF.
     intros Hc Hs. split.
     - apply (from_partial_nodup weighted sol); [|apply incl_refl|apply Hc].
       intros i Hwi Hct. apply Hw in Hwi. apply is_atom_range in Hwi. fold n in Hwi.
@@ -154,20 +155,23 @@ Section K.
   Qed.
 
   Lemma cubes_good cs : cubes_ok cs -> Forall (cube_good g) cs.
-  Proof using Hw Hq.
+  Proof.
+    clear solver_sound solver_complete Hcw Hnn HrF.
     induction 1 as [|cs sol Hcs IH Hc Hs]; [constructor|].
     apply Forall_app. split; auto. constructor; [|constructor]. eapply sol_cube_good; eauto.
   Qed.
 
   Lemma cube_good_lit c l : cube_good g c -> In l c -> l <> 0 /\ weighted (Z.abs l) = true /\ 1 <= Z.abs l <= Z.of_nat n.
-  Proof using Hw Hq.
+  Proof.
+    clear solver_sound solver_complete Hcw Hnn HrF.
     intros [_ H] Hl. specialize (H l Hl). pose proof (is_atom_range _ _ H) as Hr. fold n in Hr.
     split; [lia|]. split; auto. apply Hw; auto.
   Qed.
 
   Lemma sol_exclusive cs sol c : cubes_ok cs -> In c cs -> consistent sol ->
     all_sat sol (encode n true (clauses_of cs)) = true -> exclusive c (from_partial weighted sol).
-  Proof using Hw Hq.
+  Proof.
+    clear solver_sound solver_complete Hcw Hnn HrF.
     intros Hcs Hc Hcons Hs.
     pose proof (cubes_good cs Hcs) as Hg. rewrite Forall_forall in Hg. specialize (Hg c Hc).
     assert (Hin : In (map cpt (map Z.opp c)) (encode n true (clauses_of cs))).
@@ -185,7 +189,8 @@ Section K.
   Qed.
 
   Lemma cubes_exclusive cs : cubes_ok cs -> pairwise exclusive cs.
-  Proof using Hw Hq.
+  Proof.
+    clear solver_sound solver_complete Hcw Hnn HrF.
     induction 1 as [|cs sol Hcs IH Hc Hs]; [exact I|].
     apply pairwise_snoc; auto. apply Forall_forall. intros c Hcin. eapply sol_exclusive; eauto.
   Qed.
@@ -268,7 +273,7 @@ Section K.
 
   Theorem border_lower b : reach b -> (b_value b <= prob w n F q)%Q.
   Proof.
-    intro Hb. destruct (reach_inv b Hb) as [I1 [I2 [I3 I4]]].
+    clear solver_complete HrF. intro Hb. destruct (reach_inv b Hb) as [I1 [I2 [I3 I4]]].
     rewrite I3. rewrite (value_is_wmc _ (cubes_good _ I2)).
     apply disjoint_lower; auto using cubes_exclusive, cubes_entail.
   Qed.
@@ -359,6 +364,22 @@ Section K.
         destruct (Qlt_bool (1 - conv) (b_value ub + b_value lb1)) eqn:Ecv.
         { injection E as <- <- <-. split; [|split]; auto. simpl. apply interval_ok; auto. }
         apply (IH lb1 ub); auto.
+  Qed.
+
+  (* with lower_only a single value is only returned by a completed lower border *)
+  Lemma loop_lower_value : forall fuel lb ub v lb' ub',
+    lower_only = true ->
+    loop solver n weighted w lower_only conv fuel lb ub = (Value v, lb', ub') ->
+    is_complete lb' = true /\ v = b_value lb'.
+  Proof.
+    intros fuel lb ub v lb' ub' Hlo. subst lower_only. revert lb ub.
+    induction fuel as [|fuel IH]; intros lb ub E; cbn [loop] in E; [discriminate|].
+    destruct (is_complete lb) eqn:Ec; [discriminate|].
+    set (lb1 := border_update solver n weighted w lb) in *.
+    destruct (is_complete lb1) eqn:Ec1.
+    { cbn [andb] in E. injection E as <- <- <-. split; auto. }
+    destruct (Qlt_bool (1 - conv) (b_value ub + b_value lb1)); [discriminate|].
+    apply (IH lb1 ub E).
   Qed.
 
   (* explain mode (lower_only): on a `Value` the listed proof probabilities sum to P(q) *)
